@@ -36,7 +36,7 @@ EXCS = {
     "timeout": lambda: asyncio.TimeoutError(),
 }
 QUICK_SCRIPTS = ["walk", "mkd_rmd", "stor_pasv", "stor_epsv_after", "appe", "retr_pasv", "retr_rest", "stor_rest",
-                 "list", "mlsd", "mlst", "rename", "dele", "two_transfers"]
+                 "list", "mlsd", "mlst", "rename", "dele", "two_transfers", "pipelined_fs", "stor_rest_missing"]
 PROBE = [["cmd", "PWD"], ["epsv"], ["xfer", "STOR", "/probe.bin", 1234], ["epsv"], ["xfer", "RETR", "/probe.bin"], ["quit"]]
 
 
@@ -121,6 +121,15 @@ async def execute(net, hyg, plan):
                                  "msg": f"{where}: outcome {outcome} - the ABOR sent during the failing transfer got no reply"})
                 elif not ((not marks and finals == ["451"]) or (len(marks) == 1 and finals in (["451", "226"], ["426", "226"]))):
                     viol.append({"key": f"wrong-reply:{site}", "msg": f"{where}: replied {codes} (expected 1xx, 451|426, 226)"})
+            elif st[0] == "pipeline":
+                # several commands in one burst: every one of them is answered, the failing one(s) with 451
+                n451 = codes.count("451")
+                if "EOF" in outcome or "TIMEOUT" in outcome or len(codes) < len(st[1]):
+                    viol.append({"key": f"session-lost:{site}",
+                                 "msg": f"{where}: {len(st[1])} pipelined commands got {outcome} - a command was never answered"})
+                elif n451 < 1 or (k is not None and n451 != 1) or len(codes) != len(st[1]):
+                    viol.append({"key": f"wrong-reply:{site}", "msg": f"{where}: replied {codes} (expected one reply per command, "
+                                                                      f"451 for the failing one)"})
             elif "EOF" in outcome or "TIMEOUT" in outcome:
                 viol.append({"key": f"session-lost:{site}", "msg": f"{where}: outcome {outcome}"})
             elif finals != ["451"] or len(marks) > 1:
@@ -247,7 +256,7 @@ def run_case(case):
 
 def gen_cases(tier, seed):
     cases = []
-    names = QUICK_SCRIPTS if tier == "quick" else [n for n in sorted(corpus()) if n not in ("login_quit", "nologin", "login_pw", "login_bad_pw", "abor_idle", "misc")]
+    names = QUICK_SCRIPTS if tier == "quick" else [n for n in sorted(corpus()) if n not in ("login_quit", "nologin", "login_pw", "login_bad_pw", "abor_idle", "misc", "flood")]
     excs = ["eio", "fault"] if tier == "quick" else ["eio", "enospc", "eacces", "fault", "value", "timeout"]
     for name in names:
         for i, exc in enumerate(excs):
